@@ -39,10 +39,37 @@ void announce () {
   VL ("new " + oid + " " + fn + " " + us (getuid ()) + " " + us (geteuid ()));
 }
 
+mixed do_op (string s);
+
+// one op: `do` line, the op with its `r` line, uid snapshot
+void run_op (string op) {
+  VL ("do " + oid + " " + op);
+  do_op (op);
+  if (this_object ()) REG->snap ();   // after destruct(this_object()) the registry prints the snapshot
+}
+
+// derived registry id of a blueprint path, "?" for other names
+string bp_oid (string path) {
+  string d, f;
+  if (sscanf (path, "/c20/%s/%s", d, f) == 2) return d + f;
+  return "?";
+}
+
 #ifndef C20_MASTER
+// create(): announce, snapshot, then the script the case attached to this file (blueprint: key = path, clone: path + "#")
 void create (mixed s) {
+  string key, ops;
+  int n;
   if (stringp (s)) oid = s;
   announce ();
+  REG->snap ();
+  key = file_name (this_object ());
+  if (sscanf (key, "%s#%d", key, n) == 2) key += "#";
+  ops = REG->script (key);
+  if (!stringp (ops)) return;
+  REG->enter ();
+  foreach (string op in explode (ops, ";")) run_op (op);
+  REG->leave ();
 }
 #endif
 
@@ -64,6 +91,9 @@ mixed do_op (string s) {
     else e = catch (r = export_uid (o));
     break;
   case "load":
+    o = find_object (w[1]);
+    // the harness never lets two live objects share a registry id
+    if ((!o || !stringp (o->my_oid ())) && REG->get (bp_oid (w[1]))) { r = "nobj"; break; }
     e = catch (o = load_object (w[1]));
     if (!e && o) {
       if (!stringp (o->my_oid ())) o->announce ();   // half-made object left by a failed load: initialise late
@@ -71,18 +101,19 @@ mixed do_op (string s) {
     }
     break;
   case "clone":
-    if (member_array (w[1], RESERVED) != -1) { r = "nobj"; break; }   // ids of the master and of blueprints
+    if (member_array (w[1], RESERVED) != -1 || REG->get (w[1])) { r = "nobj"; break; }   // reserved or taken id
+    if (!find_object (w[2]) && REG->get (bp_oid (w[2]))) { r = "nobj"; break; }
     e = catch (o = clone_object (w[2], w[1]));
     if (!e && o) r = o->my_oid ();
     break;
   case "dest":
     o = REG->get (w[1]);
-    if (!o || w[1] == "m") r = "nobj";
+    if (!o || w[1] == "m" || REG->depth () > 0) r = "nobj";   // not from inside a create() script
     else { REG->unreg (w[1]); destruct (o); r = 1; }
     break;
   case "reload":
     o = REG->get (w[1]);
-    if (!o || w[1] == "m") r = "nobj";
+    if (!o || w[1] == "m" || REG->depth () > 0) r = "nobj";
     else { e = catch (reload_object (o)); r = 1; }
     break;
   default:
